@@ -69,6 +69,12 @@ func c18polys(rng *rand.Rand, n int) []c18poly {
 		return new(big.Int)
 	}))
 	out = append(out, mk("edge-values", func(i int) *big.Int { return randScalar(rng) }))
+	// values, and differences between values, that are small integers in the library's internal (Montgomery) representation
+	base := randBig(rng, ref.R)
+	out = append(out, mk("montgomery-small-steps", func(i int) *big.Int {
+		return new(big.Int).Add(base, new(big.Int).Mul(big.NewInt(int64(i%4)), rInvFr))
+	}))
+	out = append(out, mk("montgomery-small-values", func(i int) *big.Int { return new(big.Int).Mul(big.NewInt(int64(i%7)), rInvFr) }))
 	for len(out) < n {
 		out = append(out, mk("random", func(int) *big.Int { return randBig(rng, ref.R) }))
 	}
@@ -182,6 +188,11 @@ func runC18(c *mon.Ctx) {
 						q2 := pw.DivideOnDomain(uint8(k), lf)
 						for i := range q {
 							q[i].SetUint64(0xBAD)
+						}
+						// ... and whatever spare capacity it came with (append would write there): that must not be where
+						// another result lives
+						for ext, i := q[:cap(q)], len(q); i < len(ext); i++ {
+							ext[i].SetUint64(0xBAD2)
 						}
 						q3 := pw.DivideOnDomain(uint8(k), lf)
 						for i := range q3 {
